@@ -617,18 +617,45 @@ def run_case(case, acc):
     acc.case(case, nontrivial, viols)
 
 
+def run_threads_case(case, acc):
+    """virtual_memory() and swap_memory() from four threads at once over static files: each answer = the lone caller's."""
+    from vlib import concur
+    env = setup()
+    ps, vkernel = env["ps"], env["vkernel"]
+    fs = vkernel.MemFS()
+    fs.put("meminfo", render_meminfo(case))
+    if case["zones"] is not None:
+        fs.put("zoneinfo", render_zoneinfo(case))
+    if case["vmstat"] is not None:
+        fs.put("vmstat", render_vmstat(case))
+    vk = vkernel.VK()
+    vk.mount("/vproc", fs)
+    with vk, warnings.catch_warnings():
+        warnings.simplefilter("ignore")
+        jobs = {"virtual_memory": ps.virtual_memory, "swap_memory": ps.swap_memory}
+        _base, errors, wrong = concur.concurrent_vs_sequential(jobs, case.get("tseed", 0), calls=60)
+    acc.count("concurrent_calls_compared", 4 * 60)
+    acc.case(dict(case, threads=True), True, concur.violations(errors, wrong))
+
+
 def plan(tier, seed):
     n = 96000 if tier == "quick" else 3_200_000
     shards = [dict(kind="exh")]
     for s, c in harness.split_range(n, 15 if tier == "quick" else 48):
         shards.append(dict(kind="gen", seed=seed, start=s, count=c))
+    shards.append(dict(kind="threads", seed=seed, count=40 if tier == "quick" else 1500))
     return shards
 
 
 def run_shard(shard):
     acc = harness.Acc()
     setup()
-    if shard["kind"] == "exh":
+    if shard["kind"] == "threads":
+        for i in range(shard["count"]):
+            case = gen_case(harness.rng_for(shard["seed"], "c08t", i))
+            case["tseed"] = shard["seed"] * 7919 + i
+            run_threads_case(case, acc)
+    elif shard["kind"] == "exh":
         for case in exhaustive_cases():
             run_case(case, acc)
         acc.count("exhaustive_subset_cases", acc.evals)
@@ -641,5 +668,8 @@ def run_shard(shard):
             run_case(gen_case(rng), acc)
     elif shard["kind"] == "cases":
         for case in shard["cases"]:
-            run_case(case, acc)
+            if case.get("threads"):
+                run_threads_case(case, acc)
+            else:
+                run_case(case, acc)
     return acc.result()
